@@ -11,6 +11,13 @@ STUB_SOURCES = {
     "xdsl.dialects.builtin": "xdsl_dialects_builtin.py",
     "xdsl.dialects.arith": "xdsl_dialects_arith.py",
     "xdsl.dialects.memref": "xdsl_dialects_memref.py",
+    "xdsl.utils.hints": "xdsl_utils_hints.py",
+    "xdsl.pattern_rewriter": "xdsl_pattern_rewriter.py",
+    "xdsl.rewriter": "xdsl_pattern_rewriter.py",
+    "xdsl.passes": "xdsl_passes.py",
+    "xdsl.context": "xdsl_passes.py",
+    "xdsl.utils.exceptions": "xdsl_utils_exceptions.py",
+    "xdsl.parser": "xdsl_parser.py",
 }
 
 
@@ -34,6 +41,9 @@ def install_stubs(I):
 
     I.native_modules["numpy"] = numpy_namespace(I)
     I.native_modules["pyvc.stubhelpers"] = dict(param_names=NativeFn(_param_names, "param_names"))
+    from .irdl import install_irdl
+
+    install_irdl(I)
     for mod, fn in STUB_SOURCES.items():
         p = os.path.join(SRC, fn)
         if os.path.exists(p):
